@@ -14,6 +14,13 @@ import (
 
 var errEOF = errors.New("EOF")
 
+var (
+	markerFile string
+	fromProg   int
+	onlyProg   = -1
+	allShards  *shards
+)
+
 func init() { errEOF = ioEOF() }
 
 type driver struct {
@@ -26,6 +33,9 @@ func main() {
 	out := flag.String("out", "", "trace file prefix")
 	nsh := flag.Int("shards", 16, "number of trace shards")
 	seed := flag.Int("seed", 1, "seed")
+	flag.StringVar(&markerFile, "marker", "", "serial mode: write the index of each program to this file before running it, flush after it")
+	flag.IntVar(&fromProg, "from", 0, "skip programs with a smaller index")
+	flag.IntVar(&onlyProg, "only", -1, "run only this program")
 	flag.Parse()
 	if s := os.Getenv("VERIF_SEED"); s != "" && !isFlagSet("seed") {
 		if v, err := strconv.Atoi(s); err == nil {
@@ -34,6 +44,7 @@ func main() {
 	}
 	d := &driver{seed: *seed}
 	sh := newShards(*out, *nsh)
+	allShards = sh
 	defer sh.close()
 	switch *fam {
 	case "field":
@@ -91,6 +102,22 @@ func forEachLine(path string, n int, f func(shard, k int, line []byte)) {
 	for sc.Scan() {
 		b := append([]byte(nil), sc.Bytes()...)
 		if len(b) == 0 {
+			continue
+		}
+		if k < fromProg || (onlyProg >= 0 && k != onlyProg) {
+			k++
+			continue
+		}
+		if markerFile != "" {
+			// serial mode: one program at a time, its index recorded before it starts, traces flushed after it
+			os.WriteFile(markerFile, []byte(strconv.Itoa(k)), 0o644)
+			f(0, k, b)
+			if allShards != nil {
+				for _, w := range allShards.ws {
+					w.w.Flush()
+				}
+			}
+			k++
 			continue
 		}
 		chans[k%n] <- [2]interface{}{k, b}
